@@ -220,6 +220,11 @@ func (s *ManagedServer) AddCredential(username string, uPSK []byte) error {
 		s.mu.Unlock()
 		return fmt.Errorf("user %s already exists", username)
 	}
+	uPSKHash := ss2022.PSKHash(uPSK)
+	if c, ok := s.cachedUserLookupMap[uPSKHash]; ok {
+		s.mu.Unlock()
+		return fmt.Errorf("duplicate uPSK for user %s and %s", c.Name, username)
+	}
 	c, err := ss2022.NewServerUserCipherConfig(username, uPSK, s.udp != nil)
 	if err != nil {
 		s.mu.Unlock()
@@ -227,7 +232,7 @@ func (s *ManagedServer) AddCredential(username string, uPSK []byte) error {
 	}
 	uc := &cachedUserCredential{
 		uPSK:     uPSK,
-		uPSKHash: ss2022.PSKHash(uPSK),
+		uPSKHash: uPSKHash,
 	}
 	s.cachedCredMap[username] = uc
 	s.cachedUserLookupMap[uc.uPSKHash] = c
@@ -254,6 +259,11 @@ func (s *ManagedServer) UpdateCredential(username string, uPSK []byte) error {
 		s.mu.Unlock()
 		return fmt.Errorf("user %s already has the same uPSK", username)
 	}
+	uPSKHash := ss2022.PSKHash(uPSK)
+	if c, ok := s.cachedUserLookupMap[uPSKHash]; ok {
+		s.mu.Unlock()
+		return fmt.Errorf("duplicate uPSK for user %s and %s", c.Name, username)
+	}
 	c, err := ss2022.NewServerUserCipherConfig(username, uPSK, s.udp != nil)
 	if err != nil {
 		s.mu.Unlock()
@@ -261,7 +271,7 @@ func (s *ManagedServer) UpdateCredential(username string, uPSK []byte) error {
 	}
 	oldUPSKHash := uc.uPSKHash
 	uc.uPSK = uPSK
-	uc.uPSKHash = ss2022.PSKHash(uPSK)
+	uc.uPSKHash = uPSKHash
 	delete(s.cachedUserLookupMap, oldUPSKHash)
 	s.cachedUserLookupMap[uc.uPSKHash] = c
 	s.mu.Unlock()
